@@ -46,7 +46,14 @@ Q = {"secp256r1": 65521, "secp384r1": 65519, "secp521r1": 65497}
 WIDTH = {"secp256r1": 32, "secp384r1": 48, "secp521r1": 66}
 
 
+class KdfBudgetExceeded(Exception):
+    """raised by the scripted KDF when the implementation makes far more KDF calls than any
+    derivation needs (turns a non-terminating derivation into a reportable outcome)"""
+
+
 class Log:
+    kdf_budget = 300
+
     def __init__(self):
         self.calls = []          # (kind, detail...)
         self.bad = []            # parameter violations at the API boundary
@@ -54,6 +61,9 @@ class Log:
 
     def count(self, kind):
         return sum(1 for c in self.calls if c[0] == kind)
+
+    def reset_budget(self):
+        self.nkdf = 0
 
 
 def valid_key(k):
@@ -71,6 +81,9 @@ def make_toy(log: Log, rng_script=None):
 
         def derive(self, secret):
             log.calls.append(("kdf", self.a, bytes(secret), bytes(self.label), bytes(self.context), self.length))
+            log.nkdf = getattr(log, "nkdf", 0) + 1
+            if log.nkdf > log.kdf_budget:
+                raise KdfBudgetExceeded()
             return stream(10 + HASH_ID[self.a], [secret, self.label, self.context, self.length.to_bytes(4, "little")], self.length)
 
     class ConcatKDFHash:
@@ -151,8 +164,10 @@ def make_toy(log: Log, rng_script=None):
         log.calls.append(("urandom", n))
         return bytes(b)
 
+    _urandom = urandom
+
     class _os:
-        urandom = staticmethod(urandom)
+        urandom = staticmethod(_urandom)
 
     # --- toy EC ------------------------------------------------------------------------------
     class _Curve:
@@ -248,6 +263,9 @@ def recording(rng_script=None):
 
         def derive(self, secret):
             log.calls.append(("kdf", self.kw["algorithm"].name, bytes(secret), bytes(self.kw["label"]), bytes(self.kw["context"]), self.kw["length"]))
+            log.nkdf = getattr(log, "nkdf", 0) + 1
+            if log.nkdf > log.kdf_budget:
+                raise KdfBudgetExceeded()
             return self.inner.derive(secret)
 
     def urandom(n):
@@ -257,8 +275,10 @@ def recording(rng_script=None):
         log.calls.append(("urandom", n))
         return bytes(b)
 
+    _urandom = urandom
+
     class _os:
-        urandom = staticmethod(urandom)
+        urandom = staticmethod(_urandom)
 
     class GCM(real_gcm):
         @classmethod
